@@ -25,6 +25,13 @@ pub fn conformance(w: &World, r: usize, e: &Edge) -> Vec<(String, String)> {
     if policy.crash.is_some() {
         return v;
     }
+    if let Some(Err(err)) = &e.out.outcome {
+        if err.starts_with("Internal") && !err.contains("Canceled") {
+            // StateMachine::run returns on an internal error: the bft component of the node stops
+            v.push(("replica_internal_error".into(), format!("on input '{}' the handler failed with an internal error, on which the replica's run loop terminates: {err}", e.input_desc)));
+            return v;
+        }
+    }
     let rf = Ref { w, me: r, sync: policy.sync.iter().map(|b| (b.number().0, bftmsgs::ph(&b.payload.hash()))).collect(), first_block: w.c.genesis.first_block.0 };
     let s0 = refmodel::abstract_state(w, &e.from.local);
     let valid = refmodel::input_valid(w, input);
